@@ -118,7 +118,9 @@ pub trait ExSeek {
                 SeekFrom::End(d) => d == 0 ==> (*final(self)).spos() == (*old(self)).slen(),
                 SeekFrom::Current(d) => true,
             },
-            r is Err ==> (*final(self)).sfail() == (*old(self)).sfail() + 1 && (*final(self)).spos() == (*old(self)).spos();
+            r is Err ==> (*final(self)).sfail() == (*old(self)).sfail() + 1 && (*final(self)).spos() == (*old(self)).spos(),
+            // a reliable source fails only for lack of data, and moving the cursor needs none
+            (*old(self)).sreliable() ==> r is Ok;
 
     fn stream_position(&mut self) -> (r: Result<u64, std::io::Error>)
         ensures
